@@ -11,7 +11,7 @@ from . import facts as FX
 from .report import Report
 
 VERIF = FX.VERIF
-EVID = os.path.join(VERIF, "evidence")
+EVID = os.environ.get("BMSA_EVIDENCE_DIR") or os.path.join(VERIF, "evidence")
 REPLAY = os.path.join(EVID, "replay")
 KNOWN = os.path.join(VERIF, "known_findings.json")
 
